@@ -398,6 +398,32 @@ func solve(workdir, name, smt string, timeoutSec int, seed int, crossCheck bool)
 		if firstAns == "error" {
 			res.Answer, res.Solver, res.Output = "error", "z3-new", firstOut
 		}
+		// undecided: quantifier instantiation is sensitive to the solver's random seed, so before the obligation is
+		// given up as undischarged it gets a second round with other seeds (any "unsat" is a proof; "sat" a model)
+		if res.Answer == "timeout" || res.Answer == "unknown" {
+			type rr struct {
+				ans, out string
+				secs     float64
+				seed     int
+			}
+			const extra = 4
+			rch := make(chan rr, extra)
+			for k := 1; k <= extra; k++ {
+				go func(sd int) {
+					a, o, sc := runSolver(solvers[0], file, timeoutSec, sd)
+					rch <- rr{a, o, sc, sd}
+				}(seed + 7*k)
+			}
+			for k := 0; k < extra; k++ {
+				x := <-rch
+				res.Tried = append(res.Tried, fmt.Sprintf("z3-new(seed %d):%s:%.2fs", x.seed, x.ans, x.secs))
+				res.Seconds += x.secs
+				if (x.ans == "unsat" || x.ans == "sat") && res.Answer != "unsat" && res.Answer != "sat" {
+					res.Answer, res.Solver, res.Output = x.ans, "z3-new", x.out
+					res.Model = parseModel(x.out)
+				}
+			}
+		}
 	}
 	return res
 }
